@@ -1,7 +1,7 @@
 (* DriverModel.v — the transcripts the correspondence check compares: for each family of driver case
    the model computes exactly the observables the C++ driver prints.  Executable; extracted. *)
 From Coq Require Import ZArith List Bool.
-From MdspanVerif Require Import MachInt ListAux Layouts.
+From MdspanVerif Require Import MachInt ListAux Layouts Extents.
 Import ListNotations.
 Local Open Scope Z_scope.
 
@@ -19,12 +19,6 @@ Fixpoint ext_values (t : ity) (pat : list (option Z)) (vals : list Z) : list Z :
   | Some s :: pat', _ :: vals' => wrap t s :: ext_values t pat' vals'
   | None :: pat', v :: vals' => wrap t v :: ext_values t pat' vals'
   | _, _ => []
-  end.
-
-Fixpoint seq_res {A} (l : list (res A)) : res (list A) :=
-  match l with
-  | [] => Ok []
-  | r :: l' => bind r (fun a => rmap (cons a) (seq_res l'))
   end.
 
 Definition pad_se (left : bool) (pat : list (option Z)) : option Z :=
@@ -77,4 +71,24 @@ Definition map_transcript (t : ity) (lay : nat) (pv : option Z) (pat : list (opt
       TL (Ok [Z.of_nat R; Z.of_nat (length (filter (fun p => match p with None => true | Some _ => false end) pat))]);
       TL (Ok (map (fun p => match p with None => -1 | Some v => v end) pat));
       TL (seq_res (map (offset_impl t m) pts)) ]
+  end.
+
+(* ---- family X: extents ----------------------------------------------------------------------------- *)
+Definition ext_fields (e : res extents) : list tval :=
+  match e with
+  | UB => [TZ UB]
+  | Ok e =>
+    [ TL (Ok [Z.of_nat (rank e); Z.of_nat (rank_dynamic e)]);
+      TL (Ok (map (fun p => match p with None => -1 | Some v => v end) (e_pat e)));
+      TL (all_extents e) ]
+  end.
+(* mode 0: from the dynamic values only; 1: from all values *)
+Definition x_ctor (t : ity) (pat : pattern) (mode : nat) (vals : list Z) : list tval :=
+  ext_fields (if Nat.eqb mode 0 then ext_from_dynamic t pat vals else ext_from_all t pat vals).
+Definition x_conv (ts : ity) (pats : pattern) (tt : ity) (patt : pattern) (vals : list Z) : list tval :=
+  ext_fields (bind (ext_from_all ts pats vals) (fun s => ext_convert tt patt s)).
+Definition x_cmp (ta : ity) (pata : pattern) (tb : ity) (patb : pattern) (va vb : list Z) : list tval :=
+  match ext_from_all ta pata va, ext_from_all tb patb vb with
+  | Ok a, Ok b => [TB (rmap (fun x => [x]) (ext_eq a b)); TB (rmap (fun x => [x]) (ext_neq a b))]
+  | _, _ => [TZ UB]
   end.
